@@ -632,7 +632,20 @@ class TokamakEquilibrium(Equilibrium):
                 return [sign * Br / B, sign * Bz / B]
 
             pos = leg  # Starting position
+            # A leg that ends on the wall cannot be much longer than the perimeter of
+            # the domain. If the separatrix closes on itself inside the wall (e.g.
+            # around a second O-point) it never reaches the wall, so stop and fail
+            # rather than loop forever
+            max_points = int(
+                10.0 * ((self.Rmax - self.Rmin) + (self.Zmax - self.Zmin)) / step
+            )
             while True:
+                if len(line) > max_points:
+                    raise ValueError(
+                        f"Divertor leg from X-point {xpoint} did not reach the wall "
+                        f"after {max_points} steps of {step}m. Does the separatrix "
+                        f"close inside the wall?"
+                    )
                 # Integrate a distance "step" along the leg
                 solve_result = solve_ivp(
                     dpos_dl,
